@@ -204,7 +204,7 @@ def s7_check(ctx, prop_id, cases, extra_filter=None):
         if who_s is not None:
             if who_s in ('C01', 'C02', 'C05') and 'failing' in c.features() and prop_id == 'C07':
                 who_s = 'C07'
-            if who_s == prop_id or (who_s == 'C04' and prop_id in ('C01', 'C02', 'C05', 'C07')):
+            if who_s == prop_id or prop_id == 'C17' or (who_s == 'C04' and prop_id in ('C01', 'C02', 'C05', 'C07')):
                 ctx.violations.append(('implementation trace differs from Spec at event %d (case %s): impl `%s` vs spec `%s`'
                                        % (i_s, c.key, (c.t + ['<none>'])[min(i_s, len(c.t))], (c.s + ['<none>'])[min(i_s, len(c.s))]),
                                        write_replay(ctx, 'case_%s.txt' % c.key, c.text()), True))
@@ -605,8 +605,6 @@ def s5_compare(case):
     mt = m5.split()
     hdr, fs = dump_funcs(case, 'S7')
     bind = case.bind.split()
-    if any(p for p in case.provs if 'reorder' in p['ann'].split(',')):
-        return 'skip', 'reorder'
     if mt[1] == 'err':
         if fs is None and len(bind) > 2 and bind[1] == 'err' and bind[2] == mt[2]:
             return 'same', ''
@@ -633,8 +631,6 @@ def s6_compare(case):
     hdr, fs = dump_funcs(case, 'S7')
     if m6 is None or fs is None:
         return 'skip', ''
-    if any(p for p in case.provs if 'reorder' in p['ann'].split(',')):
-        return 'skip', 'reorder'
     mt = m6.split()
     d = kv(m6)
     dv = next((l for l in case.lines if l.startswith('dv ')), 'dv -').split()[1]
@@ -1329,6 +1325,78 @@ def c19(ctx):
     ctx.assumptions += ['*Debugging parameters inside the condensed collection (bypassDebug plumbing) are not generated; covered by the repository test only',
                         'the public Collection.UpFlows()/DownFlows() on an unbound collection cannot know which member is final; the flows checked are the ones Condense binds with',
                         'interface-typed received (upward) parameters are not generated']
+    if len(ctx.violations) > 5:
+        ctx.violations.sort(key=lambda v: not v[2]); ctx.violations = ctx.violations[:5]
+    return finish(ctx, 'proof', ob, dis, details, rule)
+
+
+# ---------------------------------------------------------------- C17: Reorder
+
+@prop('C17')
+def c17(ctx):
+    rule = ('(1) generated chains with Reorder\'d injectors and wrappers (profile "reorder", exact types only): the verified validators are run on '
+            'the implementation\'s S3 -> S4 dumps (permutation; providers not marked Reorder keep their relative order; the list up to the invoke '
+            'function untouched; nothing includable after the final function); the include/slot model is run on the order reorder chose (S5, S6) '
+            'and the bound chain is executed by the Exec model and compared with the Spec (every executed provider receives its inputs per C01); '
+            '(2) displacement pairs: chains in which every type has exactly one source and every provider is needed are bound, then EVERY plain '
+            'injector is marked Reorder and listed at EVERY other position (up to ~20 variants per chain): must bind, include the same providers, '
+            'run the same providers, and every provider and the invoke function must be handed each value by the same producer (tags identify '
+            'producers); distinct = provider lists x displaced provider x target position')
+    ob, dis, details = proof_obligations(ctx, 'C17')
+    q = ctx.tier == 'quick'
+    cases = load_cases(ctx, 'run', 2000 if q else 30000, 'reorder')
+    st = collections.Counter(); distinct = set()
+    if cases is not None:
+        corpus = load_corpus(ctx, 'C17')
+        allc = corpus + cases
+        s7_check(ctx, 'C17', allc)
+        stage_stats(ctx, allc, s5_compare, 'S5')
+        stage_stats(ctx, allc, s6_compare, 'S6')
+        for c in allc:
+            m4 = next((l for l in c.mlines if l.startswith('m4 ')), None)
+            if m4 is None:
+                continue
+            t = m4.split(); d = kv(m4)
+            if d.get('reorder') != '1':
+                continue
+            st['validated'] += 1
+            # the bound chain: nothing that is included may stand behind the final function
+            hdr7, fs7 = dump_funcs(c, 'S7')
+            if fs7:
+                fi = next((i for i, f in enumerate(fs7) if f['class'] == 'final-func'), None)
+                late = [f['id'] for f in fs7[fi + 1:] if f['inc'] == '1'] if fi is not None else []
+                if late:
+                    st['included-after-final'] += 1
+                    ctx.violations.append(('provider(s) %s are included but stand behind the final function in the bound chain (reorder gave up on them, '
+                                           'the include pass took them back): position-based bookkeeping is wrong for them (case %s)' % (','.join(late), c.key),
+                                           write_replay(ctx, 'case_%s.txt' % c.key, c.text()), True))
+            bad = [k for k in ('prefix', 'final') if d.get(k) != 'ok'] + (['order'] if t[1] != 'ok' else [])
+            if bad:
+                st['validator-bad'] += 1
+                what = {'order': 'reorder\'s result is not a rearrangement that keeps the providers not marked Reorder in their relative order',
+                        'prefix': 'reorder moved a provider in front of the invoke function (Bind keeps using the old index of the invoke function)',
+                        'final': 'reorder placed a provider that can be included after the final function'}[bad[0]]
+                ctx.violations.append(('%s (case %s)' % (what, c.key), write_replay(ctx, 'case_%s.txt' % c.key, c.text()), True))
+    # keep s7_check's numbers, add the pairs
+    base_eval = ctx.cov.get('evaluations', 0); base_dist = ctx.cov.get('distinct_nontrivial', 0); base_tr = ctx.cov.get('traces_validated_against_impl', 0)
+    pairs = load_cases(ctx, 'displace', 600 if q else 8000)
+    for c in pairs or []:
+        for l in pair_lines(c):
+            tk = l.split()
+            st['displace-' + tk[2]] += 1
+            if tk[2] == 'diff':
+                ctx.violations.append(('displaced Reorder\'d injector changes the chain: %s (case %s)' % (' '.join(tk[1:])[:220], c.key),
+                                       write_replay(ctx, 'case_%s.txt' % c.key, c.text()), True))
+            else:
+                distinct.add((c.shape_key(), tk[1]))
+    ctx.cov['evaluations'] = base_eval + st['displace-same'] + st['displace-diff']
+    ctx.cov['distinct_nontrivial'] = base_dist + len(distinct)
+    ctx.cov['traces_validated_against_impl'] = base_tr + st['displace-same']
+    ctx.cov['displacement_pairs'] = st['displace-same'] + st['displace-diff']
+    ctx.cov['reorder_chains_validated'] = st['validated']
+    ctx.cov['outcomes'] = dict(st)
+    ctx.assumptions += ['reorder.go itself (constraint graph, priority topological sort) is not transcribed into the model: its result is checked by verified validators on every run and the later stages are modelled on the order it chose',
+                        'Reorder with Loose/interface matching is documented as unsupported and not generated']
     if len(ctx.violations) > 5:
         ctx.violations.sort(key=lambda v: not v[2]); ctx.violations = ctx.violations[:5]
     return finish(ctx, 'proof', ob, dis, details, rule)
